@@ -724,6 +724,60 @@ def coarse_clock_level(ctx, prop="C13"):
             m.os = o
 
 
+def cache_folder_level(ctx):
+    """`_get_collection_cache_subfolder` against `CacheFolder.cacheSubfolder`: storage folders of several depths, the three kinds of
+    cached data with their options on and off, collection paths that are ordinary and paths whose nested names spell out the root
+    folder again (where `str.replace` replaces twice); different collections must get different folders (oracle), unless the
+    root's text occurs again inside the path - the case the theorem excludes and `cache_folders_collide_when_root_reoccurs` exhibits"""
+    import tempfile
+    from radicale import config, storage
+    from common import quiet_radicale
+    quiet_radicale()
+    rng = ctx.rng("cachefolder")
+    if not ctx.driver:
+        return
+    for i in range(ctx.n(20, 300)):
+        base = tempfile.mkdtemp(prefix="rverif-cf-")
+        try:
+            depth = rng.choice([0, 0, 1, 2])
+            fsf = os.path.join(base, *[rng.choice(["s", "data", "var.lib"]) for _ in range(depth)]) if depth else base
+            separate_cache = rng.random() < 0.4
+            opts = {k: str(rng.random() < 0.6) for k in ("use_cache_subfolder_for_item", "use_cache_subfolder_for_history", "use_cache_subfolder_for_synctoken")}
+            conf = config.load()
+            st_conf = dict(opts, filesystem_folder=fsf, type="multifilesystem")
+            if separate_cache:
+                st_conf["filesystem_cache_folder"] = os.path.join(base, "elsewhere")
+            conf.update({"storage": st_conf}, "verif", privileged=True)
+            st = storage.load(conf)
+            root = st._get_collection_root_folder()
+            cache = st._get_collection_cache_folder()
+            inner = root.strip("/").split("/")          # the names that would spell the root folder again
+            rels = [["u", "cal"], ["v", "cal"], ["u", "c1"], ["u", "p", "c3"], ["u"] + inner + ["x"], ["u"] + inner[:-1] + ["collection-cache", "x"],
+                    ["u", "collection-root"], ["u"] + inner]
+            seen = {}
+            for rel in rels:
+                path = os.path.join(root, *rel)
+                for sub, opt in (("item", "use_cache_subfolder_for_item"), ("history", "use_cache_subfolder_for_history"),
+                                 ("sync-token", "use_cache_subfolder_for_synctoken")):
+                    real = st._get_collection_cache_subfolder(path, ".Radicale.cache", sub)
+                    a = ctx.driver.ask1({"m": "cachefolder", "relocated": opts[opt] == "True", "root": root, "cache": cache, "path": path,
+                                         "folder": ".Radicale.cache", "sub": sub})
+                    model = "".join(chr(x) for x in a["r"])
+                    reoccurs = root in path[len(root):]
+                    case = {"filesystem_folder": fsf, "separate_cache_folder": separate_cache, "options": opts, "collection": "/" + "/".join(rel), "kind": sub,
+                            "root_text_occurs_again_in_the_path": reoccurs}
+                    ctx.case("cachefolder:%s:%s" % (sub, "relocated" if opts[opt] == "True" else "in-place"), sample=dict(case, folder=real.replace(base, "<tmp>")),
+                             key=["cf", i, tuple(rel), sub], nontrivial=opts[opt] == "True")
+                    if real != model:
+                        ctx.disagree("_get_collection_cache_subfolder vs CacheFolder.cacheSubfolder", case, real, model)
+                    other = seen.get((sub, real))
+                    if other is not None and other != rel and not reoccurs and root not in os.path.join(root, *other)[len(root):]:
+                        ctx.violation("the collections /%s and /%s share the folder %s for their %s data" % ("/".join(other), "/".join(rel), real.replace(base, "<tmp>"), sub), case)
+                    seen.setdefault((sub, real), rel)
+        finally:
+            shutil.rmtree(base, ignore_errors=True)
+
+
 def run(ctx):
     ctx.extra["rule"] = ("paired histories of 15-60 steps on two calendars: PUT / GET / DELETE / MOVE (inside, across, over existing names) / whole "
                          "PUT / calendar-query with data / PROPFIND / external edits (valid, broken, removed) on both sides; on the side under test "
@@ -741,3 +795,4 @@ def run(ctx):
     witness_f5(ctx)
     external_replacement_level(ctx)
     coarse_clock_level(ctx)
+    cache_folder_level(ctx)
